@@ -189,6 +189,10 @@ type pathInfo struct {
 	failed bool // some hypothesised evaluation returned an error on this path
 }
 
+func (p pathInfo) note(s string) pathInfo {
+	return pathInfo{calls: p.calls, notes: append(append([]string(nil), p.notes...), s), more: p.more, failed: p.failed}
+}
+
 const maxPathCalls = 6
 
 func (p pathInfo) with(c hcall) pathInfo {
@@ -258,6 +262,8 @@ type Exec struct {
 	trunc  bool
 	caller AV
 	traceReturns bool
+	cli    bool // interpreting cmd/jpgo: library calls are modelled, not inlined
+	cliGlobals map[string]string // package-level variables of the command initialised to os.Stdout / os.Stderr / os.Stdin
 }
 
 func (c *Ctx) newExec(uni Atoms, label string) *Exec {
@@ -469,7 +475,7 @@ func (x *Exec) fromAtoms(T types.Type, a Atoms, from AV) AV {
 
 // toIface: boxing a typed value.
 func (x *Exec) toIface(v AV, T types.Type, h *Heap) AV {
-	out := AV{k: 'I', prov: v.prov}
+	out := AV{k: 'I', prov: v.prov, tag: v.tag}
 	switch v.k {
 	case 'I':
 		return v
@@ -792,18 +798,22 @@ func (a *activation) instrs(b *ssa.BasicBlock, idx int, fr *frame, h *Heap, p pa
 				cv = AV{k: 'B', tri: 3}
 			}
 			both := cv.tri == 3
+			pT, pF := p, p
+			if cv.tag != "" {
+				pT, pF = p.note(cv.tag+"=true"), p.note(cv.tag+"=false")
+			}
 			if cv.tri&1 != 0 {
 				f2, h2 := fr, h
 				if both {
 					f2, h2 = fr.clone(), h.clone()
 				}
 				if x.applyFacts(f2, cv.facts, true) {
-					a.block(b.Succs[0], b, f2, h2, p)
+					a.block(b.Succs[0], b, f2, h2, pT)
 				}
 			}
 			if cv.tri&2 != 0 {
 				if x.applyFacts(fr, cv.facts, false) {
-					a.block(b.Succs[1], b, fr, h, p)
+					a.block(b.Succs[1], b, fr, h, pF)
 				}
 			}
 			return
@@ -926,6 +936,9 @@ func (x *Exec) simple(in ssa.Instruction, fr *frame, h *Heap) bool {
 			}
 			for _, f := range xv.facts {
 				r.facts = append(r.facts, fact{src: f.src, ifT: f.ifF, ifF: f.ifT, valid: f.valid})
+			}
+			if xv.tag != "" {
+				r.tag = "not " + xv.tag
 			}
 			fr.vals[in] = r
 		case token.SUB:
@@ -1066,6 +1079,17 @@ func (x *Exec) simple(in ssa.Instruction, fr *frame, h *Heap) bool {
 	case *ssa.MakeClosure:
 		fr.vals[in] = AV{k: 'U', what: "closure"}
 	case *ssa.RunDefers:
+	case *ssa.Defer:
+		if !x.cli {
+			x.gap("defer statement", in.Pos())
+		}
+		// in the command: deferred clean-up (Close) does not affect status or stdout,
+		// unless it is handed os.Stdout
+		for _, av := range in.Call.Args {
+			if x.val(fr, av).tag == "os.Stdout" {
+				x.gap("deferred call on os.Stdout", in.Pos())
+			}
+		}
 	default:
 		x.gap(fmt.Sprintf("instruction %T", in), in.Pos())
 		if v, ok := in.(ssa.Value); ok {
@@ -1186,6 +1210,20 @@ func (x *Exec) load(addr AV, t types.Type, h *Heap, in ssa.Instruction) AV {
 		if strings.HasPrefix(addr.what, "node") {
 			return AV{k: 'O', what: addr.what}
 		}
+		if strings.HasPrefix(addr.what, "global Std") {
+			return AV{k: 'P', tri: 2, what: "file", tag: "os." + strings.TrimPrefix(addr.what, "global ")}
+		}
+		if strings.HasPrefix(addr.what, "global ") {
+			if t, ok := x.cliGlobals[strings.TrimPrefix(addr.what, "global ")]; ok {
+				return AV{k: 'P', tri: 2, what: "file", tag: t}
+			}
+		}
+		if addr.what == "argelem" {
+			if addr.idx == 0 {
+				return AV{k: 'S', tag: "expr"}
+			}
+			return AV{k: 'S', tag: fmt.Sprintf("arg%d", addr.idx)}
+		}
 		v := x.opaqueOf(t, "load")
 		return v
 	}
@@ -1228,6 +1266,14 @@ func (x *Exec) load(addr AV, t types.Type, h *Heap, in ssa.Instruction) AV {
 }
 
 func (x *Exec) convert(in *ssa.Convert, v AV) AV {
+	out := x.convert0(in, v)
+	if out.tag == "" {
+		out.tag = v.tag
+	}
+	return out
+}
+
+func (x *Exec) convert0(in *ssa.Convert, v AV) AV {
 	dst := in.Type().Underlying()
 	if b, ok := dst.(*types.Basic); ok {
 		switch {
@@ -1293,6 +1339,14 @@ func (x *Exec) indexAddr(in *ssa.IndexAddr, fr *frame, h *Heap) bool {
 	}
 	if base.k != 'L' {
 		fr.vals[in] = AV{k: 'A', idx: -3, what: "element of opaque"}
+		return true
+	}
+	if base.tag == "args" {
+		out := AV{k: 'A', idx: -1, what: "argelem"}
+		if iv.nk {
+			out.idx = int(iv.n)
+		}
+		fr.vals[in] = out
 		return true
 	}
 	min, exact, known := x.listLen(base, h)
